@@ -215,6 +215,9 @@ def run_unit(unit):
                     p = p + (dd["items"][sub]["name"],)
                 expected_lines[cls] = smap.defs[tuple(p)]["line"]
             got = [(type(w).__name__, os.path.basename(w.filepath), w.lineno) for w in warns]
+            # a second definition on one line cannot be "indented by 4 x depth": an IndentWarning THERE is not demanded either way
+            same_line = {m2["line"] for p2, m2 in smap.defs.items() if str(p2[-1]).startswith("STYLE_K_")}
+            got = [g for g in got if not (g[0] == "IndentWarning" and g[2] in same_line)]
             non_indent = [g for g in got if g[0] != "IndentWarning"]
             if sname in CONFORMING_STYLES:
                 if not pert and got and not first_line:
